@@ -188,6 +188,16 @@ class CLI:
         else:
             self.parser.parse_args(['-h'])
 
+    def print_usage_help(self):
+        """
+        Print the help for the current command without exiting, so that a usage
+        error can still return its own exit status (``do_help`` exits with 0).
+        """
+        if self._args.cmd in self.commands:
+            self.commands[self._args.cmd].print_help(sys.stderr)
+        else:
+            self.parser.print_help(sys.stderr)
+
     def do_detect(self):
         self._args.cmd = 'detect'
         return self.detect_or_inspect(inspect=False)
@@ -229,7 +239,7 @@ class CLI:
                 mos_file_keys = [self._args.key]
             else:
                 sys.stderr.write("Prefix or file key must be provided with bucket name\n\n")
-                self.do_help()
+                self.print_usage_help()
                 return 2
             for mos_file_key in mos_file_keys:
                 try:
@@ -247,7 +257,7 @@ class CLI:
                     print()
         else:
             sys.stderr.write("Files or bucket name and prefix or key must be provided\n\n")
-            self.do_help()
+            self.print_usage_help()
             return 2
 
     def detect_file(self, mo, filename):
@@ -280,7 +290,7 @@ class CLI:
                     )
             else:
                 sys.stderr.write("Files or bucket name and prefix must be provided\n\n")
-                self.do_help()
+                self.print_usage_help()
                 return 2
         except InvalidMosCollection as e:
             sys.stderr.write(f"Error: {e}\n")
